@@ -2,6 +2,8 @@ package main
 
 import (
 	"fmt"
+	"go/token"
+	"go/types"
 	"strings"
 
 	"golang.org/x/tools/go/ssa"
@@ -132,4 +134,102 @@ func (r *Report) RetErrDerives(key, fnKey, callee string) {
 		return
 	}
 	r.OK(k, d, w.FnPos(fn), fmt.Sprintf("%d error return(s)", n))
+}
+
+// GoArgNotReused: a slice handed to a goroutine (`go callee(..., s, ...)`, s loaded from a slot P) is not kept in P by a
+// re-slice that still starts at the same element (P = P[:0], P = P[:n]) nor left in P unchanged: the next append to P
+// would write into the array the goroutine is still reading (seed C19-5). Accepted resets: a fresh slice, or the disjoint
+// tail P = P[n:].
+func (r *Report) GoArgNotReused(key, fnKey, callee string, minSites int) {
+	w := r.W
+	fn := w.Fn(fnKey)
+	d := fmt.Sprintf("in %s a slice passed to `go %s` is afterwards replaced in its slot by a fresh slice or by the disjoint tail, never by a re-slice that keeps its first element", fnKey, callee)
+	k := key + "|" + fnKey + "|go " + callee
+	if fn == nil {
+		r.Unres(k, d, "function not found")
+		return
+	}
+	w.FuncsAnalysed[fn] = true
+	slotOf := func(v ssa.Value) ssa.Value { // the address the (possibly re-sliced) value was loaded from
+		for i := 0; i < 8; i++ {
+			switch x := v.(type) {
+			case *ssa.Slice:
+				v = x.X
+			case *ssa.UnOp:
+				if x.Op == token.MUL {
+					return x.X
+				}
+				return nil
+			default:
+				return nil
+			}
+		}
+		return nil
+	}
+	// same slot: identical address, or the same element of the same slice (index operands are the same SSA value)
+	sameSlot := func(a, b ssa.Value) bool {
+		if sameAddr(a, b) {
+			return true
+		}
+		ia, ok1 := a.(*ssa.IndexAddr)
+		ib, ok2 := b.(*ssa.IndexAddr)
+		return ok1 && ok2 && seeThrough(ia.Index) == seeThrough(ib.Index) && (ia.X == ib.X || Render(ia.X).String() == Render(ib.X).String())
+	}
+	n := 0
+	for _, b := range fn.Blocks {
+		for _, in := range b.Instrs {
+			g, ok := in.(*ssa.Go)
+			if !ok || !nameMatch(CalleeName(&g.Call), callee) {
+				continue
+			}
+			for _, a := range g.Call.Args {
+				if _, isSlice := a.Type().Underlying().(*types.Slice); !isSlice {
+					continue
+				}
+				slot := slotOf(a)
+				if slot == nil {
+					continue
+				}
+				n++
+				w.SitesExamined++
+				// stores to the same slot reachable after the go statement (same block suffix or later blocks)
+				reset := false
+				for _, b2 := range fn.Blocks {
+					for _, in2 := range b2.Instrs {
+						st, ok := in2.(*ssa.Store)
+						if !ok || !sameSlot(st.Addr, slot) {
+							continue
+						}
+						if b2 == b && instrIndex(in2) < instrIndex(in) {
+							continue
+						}
+						if !(b2 == b || reachFrom(b, nil)[b2]) {
+							continue
+						}
+						if sl, ok := st.Val.(*ssa.Slice); ok && slotOf(sl) != nil && sameSlot(slotOf(sl), slot) {
+							if sl.Low == nil {
+								r.Bad(fmt.Sprintf("%s#%d", k, n), d, w.posOr(st.Pos(), fn), "the slot is reset to "+clip(Render(st.Val).String(), 100)+", which keeps the backing array the goroutine reads from its first element")
+								return
+							}
+							reset = true // disjoint tail
+							continue
+						}
+						if call, ok := st.Val.(*ssa.Call); ok && CalleeName(&call.Call) == "builtin.append" {
+							continue // growth elsewhere in the loop; judged by the reset that precedes it
+						}
+						reset = true
+					}
+				}
+				if !reset {
+					r.Bad(fmt.Sprintf("%s#%d", k, n), d, w.posOr(g.Pos(), fn), "the slice stays in its slot after the hand-off")
+					return
+				}
+			}
+		}
+	}
+	if n < minSites {
+		r.Unres(k, d, fmt.Sprintf("%d hand-offs found, expected >= %d", n, minSites))
+		return
+	}
+	r.OK(k, d, w.FnPos(fn), fmt.Sprintf("%d hand-offs", n))
 }
